@@ -395,7 +395,8 @@ Definition judge_1802 (sk : option (list Z)) (dec : unit -> option (tval * list 
        end)
   end.
 
-(* 1802. fields: type, bytes, mask, SkipGo err, SkipGo consumed, then (err, consumed) of SkipNative under avx2, avx, sse.
+(* 1802. fields: type, bytes, mask, SkipGo err, SkipGo consumed, then (err, consumed) of SkipNative under avx2, avx, sse
+   (err: 0 ok, 1 error, 3 panic, 4 no answer within the watchdog limit — 3 and 4 are never acceptable).
    Well-formed strict values: SkipGo and every flavour must consume exactly the model's count.  Bytes the model's skip accepts that are
    not a strict well-formed value (unknown element type in an empty container): Go must still equal the model, a native difference is drift.
    Bytes the model's skip rejects: everybody must fail. *)
